@@ -24,7 +24,7 @@ MODEL = {
 INVS = ["InvPermutation", "InvCm", "InvRoc", "InvReg", "InvSil", "InvPear"]
 BIG_INVS = ["WellFormed", "RoundTrip", "AddOk", "SubOk", "MulOk", "MulBigOk", "CmpOk", "CanonOk", "QOk", "QSumOk",
             "CloseOk", "SqrtOk", "SqrtBracket"]
-BIG_R = {"quick": 12, "thorough": 60}
+BIG_R = {"quick": 8, "thorough": 60}
 
 # case generator (B): several runs of Gen_Metrics with different bounds (union of the cases)
 GEN_BASE = dict(CmLen=1, CmAlpha=1, CmBinLen=1, RocLen=2, RocDen=1, RegLen=1, RegNeg=0, RegHi=0, SilMinLen=4, SilLen=4,
@@ -32,23 +32,23 @@ GEN_BASE = dict(CmLen=1, CmAlpha=1, CmBinLen=1, RocLen=2, RocDen=1, RegLen=1, Re
 
 
 def gen_runs(tier):
+    """(kinds, constants) per TLC run of Gen_Metrics; one run enumerates one bounded domain per kind."""
     q = tier == "quick"
     runs = [
-        (["cm"], dict(CmLen=3 if q else 4, CmAlpha=3, CmBinLen=5 if q else 6)),
-        (["roc"], dict(RocLen=3 if q else 4, RocDen=4)),
-        (["roc"], dict(RocLen=4, RocDen=2)),
-        (["reg"], dict(RegLen=2, RegNeg=2, RegHi=2)),
-        (["reg"], dict(RegLen=3, RegNeg=1, RegHi=(1 if q else 2))),
-        (["mreg"], dict()),
-        (["sil"], dict(SilMinLen=4, SilLen=5 if q else 6, SilPos=3, SilKs="{2}")),
-        (["sil"], dict(SilMinLen=6, SilLen=6, SilPos=3, SilKs="{3}")),
-        (["pear"], dict(PearRows=3, PearCols=2, PearHi=2)),
-        (["pear"], dict(PearRows=3, PearCols=3, PearHi=1)),
+        (ALL_KINDS, dict(CmLen=3 if q else 4, CmAlpha=3, CmBinLen=5 if q else 6,
+                         RocLen=3 if q else 4, RocDen=4,
+                         RegLen=2, RegNeg=2, RegHi=2,
+                         SilMinLen=4, SilLen=5 if q else 6, SilPos=3, SilKs="{2}",
+                         PearRows=3, PearCols=2, PearHi=2)),
+        (["roc", "reg", "sil", "pear"], dict(RocLen=4, RocDen=2,
+                                             RegLen=3, RegNeg=1, RegHi=(1 if q else 2),
+                                             SilMinLen=6, SilLen=6, SilPos=3, SilKs="{3}",
+                                             PearRows=3, PearCols=3, PearHi=1)),
         (["pear"], dict(PearRows=4, PearCols=2, PearHi=1)),
     ]
     if not q:
-        runs.append((["pear"], dict(PearRows=4, PearCols=3, PearHi=1)))
-        runs.append((["sil"], dict(SilMinLen=7, SilLen=7, SilPos=2, SilKs="{2, 3}")))
+        runs.append((["pear", "sil"], dict(PearRows=4, PearCols=3, PearHi=1,
+                                           SilMinLen=7, SilLen=7, SilPos=2, SilKs="{2, 3}")))
     return runs
 
 
@@ -233,7 +233,7 @@ def run_conformance(ctx, binp):
     traces = vlib.run_harness(ctx, binp, cases)
     for kind in ALL_KINDS:
         vlib.sample(ctx, [t for t in traces if t["kind"] == kind][:1], n=1)
-    vlib.validate_with_findings(ctx, "Trace_Metrics", traces, constants=TRACE_CONST, chunk=2500)
+    vlib.validate_with_findings(ctx, "Trace_Metrics", traces, constants=TRACE_CONST, chunk=4000)
     per_kind = {k: sum(1 for c in cases if c["kind"] == k) for k in ALL_KINDS}
     ctx.extra["cases_per_kind"] = per_kind
     ctx.extra["cases_enumerated_by_tlc"] = n_enum
